@@ -592,6 +592,119 @@ def check_core(prop, tier, seed):
 
 
 # --------------------------------------------------------------------------------------------
+# C09: AckRetry.tla + ack driver
+
+ACK_MC = '''SPECIFICATION Spec
+CONSTANTS
+  Ids = {%(ids)s}
+  MaxRetry = %(max)d
+  Interval = 2
+  MaxTime = %(maxtime)d
+  QueryMode = "sound"
+INVARIANT StoredBeforeHandler
+INVARIANT Bounded
+PROPERTY Redelivery
+PROPERTY SilentAfterAck
+CHECK_DEADLOCK FALSE
+'''
+ACK_TRACE = '''SPECIFICATION TSpec
+CONSTANTS
+  Ids = {%(ids)s}
+  MaxRetry = %(max)d
+  Interval = 2
+  MaxTime = 100000
+  QueryMode = "sound"
+POSTCONDITION TDone
+CHECK_DEADLOCK FALSE
+'''
+
+
+def scenario_lines_by(path, k, marker):
+    out, n = [], 0
+    with open(path) as fh:
+        for line in fh:
+            if marker in line:
+                n += 1
+            if n == k:
+                out.append(line)
+            elif n > k:
+                break
+    return out
+
+
+def check_c09(tier, seed):
+    prop = 'C09'
+    build_harness()
+    quick = tier == 'quick'
+    mcs = [(2, 2, 10)] if quick else [(2, 2, 12), (3, 1, 10), (2, 3, 12), (3, 2, 9)]
+    states = trans = 0
+    mc_runs = []
+    for n, mx, mt in mcs:
+        out, wall = tlc('AckRetry.tla', ACK_MC % dict(ids=', '.join(str(i) for i in range(1, n + 1)), max=mx, maxtime=mt),
+                        'ack-mc-%d-%d' % (n, mx), workers=8, timeout=3000)
+        st, tr = tlc_stats(out)
+        if 'Error:' in out or st == 0:
+            m = re.search(r'Error: (.*)', out)
+            raise ToolError('AckRetry.tla does not satisfy its own properties (%s): the specification is wrong\n%s'
+                            % (m.group(1) if m else '?', out[-1500:]))
+        states += st; trans += tr
+        mc_runs.append(dict(ids=n, max_retry=mx, max_time=mt, states=st, transitions=tr, wall=round(wall, 1)))
+    log('model checking AckRetry: %d states' % states)
+    combos = [(1, 1), (2, 2), (3, 1), (2, 3)] if quick else [(n, m) for n in (1, 2, 3) for m in (1, 2, 3)]
+    runs = 80 if quick else 600
+    d = '%s/ack-%s' % (WORK, tier)
+    shutil.rmtree(d, ignore_errors=True)
+    os.makedirs(d)
+    jobs = [(b, n, m) for b in ('mem', 'sqlite') for n, m in combos]
+
+    def run(job):
+        b, n, m = job
+        f = '%s/ack-%s-%d-%d.ndjson' % (d, b, n, m)
+        sh([HARNESS, 'ack', '--out', f, '--runs', str(runs), '--ops', '30', '--n', str(n), '--max', str(m),
+            '--backend', b, '--seed', str(seed * 100 + n * 10 + m), '--workdir', d + '/run'], check=True, timeout=1800)
+        out, wall = tlc('TraceAck.tla', ACK_TRACE % dict(ids=', '.join(str(i) for i in range(1, n + 1)), max=m),
+                        'ack-tr-%s-%d-%d' % (b, n, m), env={'TRACE': f}, workers=1, timeout=1800, java_opts=JOPTS)
+        if 'ACK|DONE' not in out:
+            raise ToolError('TraceAck failed on %s\n%s' % (f, out[-2000:]))
+        bad = []
+        for ln in out.split('\n'):
+            if ln.startswith('"ACK|VIOLATION'):
+                p = json.loads(ln).split('|')
+                bad.append(dict(what=p[2], scenario=int(p[3]), line=int(p[4])))
+        return dict(file=f, backend=b, n=n, max=m, scenarios=runs, lines=count_lines(f), bad=bad)
+
+    with concurrent.futures.ThreadPoolExecutor(max_workers=8) as ex:
+        results = list(ex.map(run, jobs))
+    violations = []
+    for r in results:
+        seen = set()
+        for b in r['bad']:
+            if b['scenario'] in seen:
+                continue          # the first deviation of a scenario; the rest cascades from it
+            seen.add(b['scenario'])
+            lines = scenario_lines_by(r['file'], b['scenario'], '"ev":"ackmodel"')
+            path = replay_file(prop, tier, seed, 'engine deviates from AckRetry.tla: ' + b['what'],
+                               dict(backend=r['backend'], messages=r['n'], max_retry=r['max'], at_line=b['line'],
+                                    trace=[json.loads(x) for x in lines]))
+            violations.append((b['what'], path))
+    n_scen = sum(r['scenarios'] for r in results)
+    n_bad = len(violations)
+    sample = [json.loads(x) for x in scenario_lines_by(results[0]['file'], 1, '"ev":"ackmodel"')][:12]
+    write_evidence(prop, tier, seed, 'model_checking', dict(
+        states=states, transitions=trans, traces_validated_against_impl=n_scen - n_bad, samples=[sample], exhaustive=True,
+        model_checking=dict(spec='spec/AckRetry.tla', runs=mc_runs,
+                            properties=['StoredBeforeHandler', 'Bounded', 'Redelivery', 'SilentAfterAck']),
+        conformance=dict(spec='spec/TraceAck.tla', backends=['mem', 'sqlite'], combos=combos, scenarios=n_scen,
+                         operations=sum(r['lines'] - r['scenarios'] for r in results), deviating_scenarios=n_bad),
+        rule='every pattern of emit/ack/action/redo/clear/tick/advance over <=3 messages explored by TLC; seeded random '
+             'operation sequences on the real engine (virtual clock, manual tick) on both backends replayed on the spec'),
+        len(violations), ['one process, one acknowledging channel', 'time in units of half the retry interval'])
+    for what, path in violations[:5]:
+        print('VIOLATION property=%s replay=%s' % (prop, path))
+    return 1 if violations else 0
+
+
+# --------------------------------------------------------------------------------------------
 
 
 def do_replay(prop, path):
@@ -633,6 +746,8 @@ def main(argv):
             return do_replay(prop, replay)
         if prop in CORE:
             return check_core(prop, tier, seed)
+        if prop == 'C09':
+            return check_c09(tier, seed)
         print('no check for', prop)
         return 2
     except ToolError as e:
